@@ -21,7 +21,7 @@ TRUSTED = [
     'the unclipped V is obtained from a second run with kl_clip=None on the identical state (weights are never updated by the harness)',
 ]
 THEOREMS = ['vg_sum_is_scaled_inner', 'nu_formula', 'nu_range', 'nu_bound', 'nu_zero', 'nu_tight', 'inner_split', 'only_rescales', 'clip_none_identity', 'same_scale_on_every_rank']
-NOTES = 'That one nu is shared by all ranks is checked by the tie (ratio computed jointly over ranks), not proved from a machine model.'
+NOTES = 'That one nu is shared by all ranks is same_scale_on_every_rank (corollary of C02 transparency); the tie computes the ratio jointly over ranks.'
 
 
 def run_pair(cfg, hist, seed):
@@ -41,6 +41,59 @@ def split(res):
     pres = [x for x in res if isinstance(x, tuple) and len(x) == 3 and x[0] == 'pre']
     posts = [x for x in res if x is not None and not (isinstance(x, tuple) and len(x) == 3 and x[0] == 'pre')]
     return pres, posts
+
+
+def mixed_precision_case(rng, seed, k):
+    """Parameters of different dtypes in one model: a float32 body and a small LAST-registered bfloat16 / float16 auxiliary head whose
+    share of <V, D> is negligible.  The applied factor (measured on the float32 layers) must still be min(1, sqrt(kl / |s|)) with s summed
+    in at least float32 - not in the dtype of whichever layer happens to be visited first."""
+    import torch
+    from harness import simdist
+    from kfac.preconditioner import KFACPreconditioner
+    low = rng.choice([torch.bfloat16, torch.float16])
+    nin, nh, nout = rng.randint(2, 4), rng.randint(2, 5), rng.randint(2, 3)
+    lr = rng.choice([0.5, 1.0, 0.125]); kl = rng.choice([1e-6, 1e-5, 1e-7])
+    method = rng.choice(['eigen', 'inverse'])
+    b2 = rng.random() < 0.5
+
+    class Mixed(torch.nn.Module):
+        def __init__(self):
+            super().__init__()
+            self.body = torch.nn.Sequential(torch.nn.Linear(nin, nh), torch.nn.Tanh(), torch.nn.Linear(nh, nout, bias=b2))
+            self.aux = torch.nn.Linear(nout, 1).to(low)
+
+        def forward(self, x):
+            y = self.body(x)
+            return y, self.aux((y.detach() * 2.0 ** -6).to(low))
+    simdist.install()
+    ms = []
+    for clip in (kl, None):
+        torch.manual_seed(seed + k)
+        m = Mixed()
+        p = KFACPreconditioner(m, kl_clip=clip, lr=lr, damping=0.5, compute_method=method, factor_update_steps=1, inv_update_steps=1)
+        g = torch.Generator().manual_seed(seed + k + 1)
+        x = torch.randn(8, nin, generator=g); w = torch.randn(8, nout, generator=g)
+        y, z = m(x)
+        ((y * w).sum() + z.float().sum() * 2.0 ** -6).backward()
+        mods = [m.body[0], m.body[2], m.aux]
+        D = [combined_grad(q) for q in mods]
+        p.step()
+        ms.append((D, [combined_grad(q) for q in mods]))
+    (D, A_after), (_, V) = ms
+    hb = [1, int(b2), 1]
+    layers = [[d.shape[0], d.shape[1] - b, b, hexm(v), hexm(d)] for d, v, b in zip(D, V, hb)][::-1]
+    s_hex, nu_hex = common.run_model([('clip', [float(lr).hex(), float(kl).hex(), layers])])[0]
+    nu_model = 1.0 if nu_hex == 'none' else float.fromhex(nu_hex)
+    num = sum(float((a * v).sum()) for a, v in zip(A_after[:2], V[:2])); den = sum(float((v * v).sum()) for v in V[:2])
+    nu_impl = num / den if den > 0 else 1.0
+    s64 = sum(float((v * d).sum()) for v, d in zip(V, D)) * lr * lr
+    case = {'kind': 'mixed-precision', 'low': str(low), 'dims': [nin, nh, nout], 'lr': lr, 'kl_clip': kl, 'method': method, 'seed': seed + k}
+    probs = []
+    if abs(nu_impl - nu_model) > 2e-5 * max(1.0, nu_model):
+        probs.append(f'applied factor {nu_impl:.8g} != min(1, sqrt(kl/|s|)) = {nu_model:.8g} with a {low} layer registered last (s = {s64:.6g})')
+    if nu_impl ** 2 * abs(s64) > kl * (1 + 1e-4) + 1e-12:
+        probs.append(f'nu^2 lr^2 |sum<V,D>| = {nu_impl ** 2 * abs(s64):.6g} exceeds kl_clip = {kl}')
+    return case, probs, nu_model
 
 
 def run(tier, seed, rng):
@@ -120,6 +173,13 @@ def run(tier, seed, rng):
                                         impl={'nu': nu_impl}, oracle_rejects=bool(orc or any('not' in p or 'changed' in p for p in probs)),
                                         correspondence=CORRESPONDENCES[0], theorems=THEOREMS,
                                         oracle='0 < nu <= 1, nu^2 lr^2 |sum<V,D>| <= kl, nu = min(1, sqrt(kl/|s|)) in float64'))
+    # mixed parameter dtypes (float32 body, low-precision layer registered last)
+    for k in range(12 if tier == 'quick' else 120):
+        case, probs, nu_m = mixed_precision_case(rng, seed, k)
+        cov.add(case, nu_m < 1.0, sample_cap=2); cov.count('mode', 'mixed-precision')
+        if probs:
+            failures.append(Failure(what='; '.join(probs)[:500], case=case, oracle_rejects=True, correspondence=CORRESPONDENCES[0], theorems=THEOREMS,
+                                    oracle='nu = min(1, sqrt(kl/|s|)) in float64 from the implementation\'s own V and D; nu^2 lr^2 |s| <= kl'))
     # constructor accepts None, positive constants and callables; rejects non-positive constants
     import torch
     from kfac.preconditioner import KFACPreconditioner
